@@ -287,8 +287,14 @@ def inlined_view(prog, fn, depth=2, keep=()):
                 res.append(st)
                 continue
             # the helper's own locals keep their names unless the caller uses the same name for something else
+            # ... a name the caller binds for the first time *by this very statement* (`x = helper()` where the helper
+            # calls its result x as well) is the same variable, not a collision
+            before = {t.id for t in ast.walk(fn.node) if isinstance(t, ast.Name) and
+                      getattr(t, 'lineno', 0) < st.lineno} | set(fn.params)
+            later_targets = {t.id for t in ast.walk(assign_to) if isinstance(t, ast.Name)} if assign_to is not None \
+                else set()
             locs = ({t.id for x in walk_fn(h) for t in ast.walk(x) if isinstance(t, ast.Name) and
-                     isinstance(t.ctx, ast.Store)} - set(sub)) & caller_names
+                     isinstance(t.ctx, ast.Store)} - set(sub)) & (caller_names - (later_targets - before))
 
             class S(ast.NodeTransformer):
                 def visit_Name(self, node):
